@@ -53,6 +53,15 @@ def gen_case(seed, i):
             # modification times with a millisecond part, in the same second in which the history starts
             w.add_file(p, dict(_fam(f + 1, n, flips), **({"text": 1} if text else {})), mt=T0_NS + (3 * f + k) * 5 * 10**6 + rng.choice([0, 1, 999]) * 10**3)
             files.append(p)
+    twins = None
+    if rng.random() < 0.2:
+        # two files on two DEVICES that carry the same inode number (the seam presents them so), the same length
+        # and the same mtime, but different bytes - each with a true copy on its own device
+        n_ = rng.choice([n_long, 50])
+        mt_ = T0_NS + 77 * 10**6
+        w.add_file("r/devA/x", _fam(41, n_), mt=mt_); w.add_file("r/devA/xcopy", _fam(41, n_), mt=mt_ + 10**6)
+        w.add_file("r/devB/x", _fam(42, n_), mt=mt_); w.add_file("r/devB/xcopy", _fam(42, n_), mt=mt_ + 2 * 10**6)
+        twins = ["r/devA/x", "r/devB/x"]
     steps = []
     live = list(files)
     counter = [0]
@@ -99,7 +108,7 @@ def gen_case(seed, i):
         k = rng.randrange(len(steps) - 1)
         steps[k]["kill"] = {"kind": rng.choice(["write", "pwrite", "fsync", "openw"]), "ord": rng.choice([0, 1, 2, 3, 5]),
                             "act": rng.choice(["crashb", "crasha"])}
-    return {"i": i, "world": w.to_json(), "steps": steps}
+    return {"i": i, "world": w.to_json(), "steps": steps, "twins": twins}
 
 
 def gen_cases(tier, seed):
@@ -198,6 +207,12 @@ def run_case(case):
         world_content = {e["p"]: content_bytes(e["c"]) for e in case["world"]["entries"] if e["t"] == "f"}
         clock = T0_NS + 100 * 10**6      # all initial mtimes lie in [T0, T0+100ms)
         labels = {}
+        if case.get("twins"):
+            for k_, p_ in enumerate(case["twins"]):
+                try:
+                    labels[os.lstat(os.path.join(rd.wb(), s2b(p_))).st_ino] = {"ino": 987654321, "dev": 7001 + k_}
+                except OSError:
+                    pass
         traces = []
         served = 0
         hist_sig = []
